@@ -22,6 +22,7 @@ fn main() {
     let mut rep = Report::new("C13", &cli);
     rep.note("rule", json!("case = tracker (all four kinds) with history length 1..10, visual_max_observations 1..8 (minimal track length <= it), collect thresholds on quality / area / own share, and a long-lived world (few objects, one in sixteen parked with bit-identical boxes frame after frame, up to 400 updates per track, quality sequences increasing / decreasing / constant / alternating around the collect threshold, features present or absent). After every call, for every track touched: per-track shadow lists maintained from the API boundary give the expected histories (last min(length, history) observed boxes / predicted boxes / features in arrival order, last entries equal to the record) and the expected gallery: previous stored features, minus one of minimal quality iff the previous count >= max, plus the detection's feature iff the track was just created or the detection meets the collect thresholds; stored count <= max; reported collected count == features actually stored; entry 0 is the newest and the only one with a box; an evicted feature never has higher quality than a kept older one. wasted() conversions are compared with the same shadow lists. Non-trivial update: an eviction or a rejected (below collect threshold) feature happened; distinct by (history, call, track)."));
     rep.note("assumptions", json!(["features are unique per detection (random noise), so a stored feature identifies the detection it came from", "collect decisions whose computed area / own share lies within 1e-6 / 1e-3 of the threshold are skipped and counted; the own share is the f64 inclusion-exclusion reference over the call's boxes (thresholds 0.3..0.95), not the library's own function"]));
+    vh::trk::PARKED_OBJECTS.with(|c| c.set(true));
     let n = cli.cases(960, 4000);
     for idx in cli.index_range(n) {
         let mut rng = Rng::for_case(cli.seed, cli.shard, idx);
